@@ -87,9 +87,12 @@ def path_case(draw, n=(2, 4), raman=False, max_ch=40, multiband=False):
     if dst >= src:
         dst += 1
     si = eq['SI'][0]
-    lo = int(si['f_min'] / 1e6) - draw(st.sampled_from([0, 0, 0, 200000]))
+    # ROADM impairment profiles are written for the SI band: with such a library the carriers stay inside it (a carrier that
+    # no frequency range of a crossed profile covers has no defined impairment - a library / spectrum mismatch, not judged)
+    profiled = any(r.get('roadm-path-impairments') for r in eq['Roadm'])
+    lo = int(si['f_min'] / 1e6) - (0 if profiled else draw(st.sampled_from([0, 0, 0, 200000])))
     comb = draw(spectra.comb(1, max_ch, f_start=(lo, int(si['f_max'] / 1e6) - 400000), power=(-6.0, 6.0),
-                             f_stop=int(si['f_max'] / 1e6) + draw(st.sampled_from([0, 0, 100000]))))
+                             f_stop=int(si['f_max'] / 1e6) + (0 if profiled else draw(st.sampled_from([0, 0, 100000])))))
     nli = draw(st.sampled_from(['gn_model_analytic'] * 4 + ['ggn_approx']))
     # GGN evaluated on a few channels only and interpolated (held at the edge values) for the others; indices <= 3 so that
     # they exist whatever the in-band filter removes from a comb of >= 10 carriers
